@@ -60,6 +60,9 @@ KERNEL_CONS = [
     ("FxSetCallbacksEmpty", ""),            # self.callbacks: EventCallbacks = []
     ("FxSetGenerator", ""),                 # self._generator = generator
     ("FxNewInitialize", ""),                # self._target: Event = Initialize(env, self)
+    # Event.value
+    ("FxRaiseValuePending", ""),            # raise AttributeError(f'Value of {self} is not yet available')
+    ("FxReturnValue", ""),                  # return self._value
 ]
 
 STEP_TRY = """try:
@@ -124,6 +127,8 @@ KERNEL_FX = [
     ("self.callbacks: EventCallbacks = []", "FxSetCallbacksEmpty", []),
     ("self._generator = generator", "FxSetGenerator", []),
     ("self._target: Event = Initialize(env, self)", "FxNewInitialize", []),
+    ("raise AttributeError(f'Value of {self} is not yet available')", "FxRaiseValuePending", []),
+    ("return self._value", "FxReturnValue", []),
 ]
 
 
@@ -160,6 +165,10 @@ def _specs(repo):
         S(ev, "Event", "trigger"),
         S(ev, "Process", "__init__", [("hasattr(generator, 'throw')", "is_generator", "bool")], name="gen_Process_init"),
         S(ev, "Process", "is_alive", [("self._value is PENDING", "pending", "bool")], decorator="property", ret="bool"),
+        S(ev, "Event", "triggered", [("self._value is not PENDING", "triggered", "bool")], decorator="property", ret="bool"),
+        S(ev, "Event", "processed", [("self.callbacks is None", "processed", "bool")], decorator="property", ret="bool"),
+        S(ev, "Event", "ok", [("self._ok", "ok", "bool")], decorator="property", ret="bool"),
+        S(ev, "Event", "value", [("self._value is PENDING", "pending", "bool")], decorator="property"),
     ]
 
 
